@@ -1,5 +1,1 @@
-impl<BE: DecryptWriteBackend> Indexer<BE> {
-    // save(): writes the collected index file (takes &self: cannot touch `indexed`); reset() is a unit of its own
-    #[verifier::external_body]
-    pub fn save(&self) -> (r: RusticResult<()>) { unimplemented!() }
-}
+// (Indexer::save is an extracted unit now)
